@@ -32,6 +32,12 @@ def run(chk):
     h = symtree_check.replay_simulated(chk, cfg, CLAUSES, num, depth, chk.seed, batches=1 if not thorough else 8)
     for k, v in h.items():
       hits[k] = hits.get(k, 0) + v
+  # one implementation test per transition, from every sampled small tree
+  for states_cfg, step_cfg, k in ([('C01_states.cfg', 'C01_step.cfg', 10), ('C01_states.cfg', 'C01_step2.cfg', 3)] if not thorough
+                                  else [('C01_states.cfg', 'C01_step.cfg', 120), ('C01_states.cfg', 'C01_step2.cfg', 40)]):
+    h = symtree_check.replay_transitions(chk, states_cfg, step_cfg, CLAUSES, max_states=k, seed=chk.seed)
+    for kk, v in h.items():
+      hits[kk] = hits.get(kk, 0) + v
   chk.notes['action_outcome_hits'] = dict(sorted(hits.items()))
   # vacuity guards: the mechanisms the property is about must have been exercised
   for need in ('ListInsert:ok', 'ListDel:ok', 'DictSet:ok', 'Rebind:ok', 'Clone:ok', 'ListReverse:ok',
